@@ -193,8 +193,17 @@ class Check(PropertyCheck):
                 x, y = F(e.attrs["x"]), F(e.attrs["y"])
                 cx, cy = x / sc - F(1, 4), (y / sc - F(3, 2)) / 2
                 if cx.denominator != 1 or cy.denominator != 1:
-                    bad = ("text is not anchored at the anchor point of a cell", e)
-                    break
+                    # far from the origin an f32 no longer holds the anchor exactly (column 300 001 at scale 0.25 is
+                    # 75000.3125, printed 75000.31): accept the cell whose anchor is within two units in the last place
+                    rx, ry = round(cx), round(cy)
+                    tol_x = (abs(x) / (1 << 22)) / sc
+                    tol_y = (abs(y) / (1 << 22)) / sc / 2
+                    if abs(cx - rx) <= tol_x and abs(cy - ry) <= tol_y and tol_x < F(1, 8) and tol_y < F(1, 8):
+                        self.count("anchor_rounded_in_f32")
+                        cx, cy = F(rx), F(ry)
+                    else:
+                        bad = ("text is not anchored at the anchor point of a cell", e)
+                        break
                 col = int(cx)
                 if (col, int(cy)) in openq:
                     if e.text != openq[(col, int(cy))]:
